@@ -500,7 +500,7 @@ class sptensor:
 
         # Check for the case where we accumulate over *all* dimensions
         if remdims.size == 0:
-            result = function_handle(self.vals.transpose()[0])
+            result = function_handle(self.vals.reshape(-1))
             if isinstance(result, np.generic):
                 result = result.item()
             return result
